@@ -307,8 +307,9 @@ func (rm *RequestManager) processResponses(p peer.ID,
 		attribute.Int("blockCount", len(blks)),
 	))
 	defer span.End()
-	filteredResponses := rm.filterResponsesForPeer(responses, p)
+	filteredResponses := rm.dropResponsesForOtherPeers(responses, p)
 	filteredResponses = rm.processExtensions(filteredResponses, p)
+	filteredResponses = rm.filterResponsesForPeer(filteredResponses, p)
 	blkMap := make(map[cid.Cid][]byte, len(blks))
 	for _, blk := range blks {
 		blkMap[blk.Cid()] = blk.RawData()
@@ -334,6 +335,22 @@ func (rm *RequestManager) filterResponsesForPeer(responses []gsmsg.GraphSyncResp
 		responsesForPeer = append(responsesForPeer, response)
 	}
 	return responsesForPeer
+}
+
+// dropResponsesForOtherPeers removes the responses that address a request in progress with a
+// different peer, so that they never reach the response hooks. Responses for requests that are
+// not (or no longer) in progress still reach the hooks, as they always have: a late final
+// response is reported to the hooks even when the request has already completed locally
+func (rm *RequestManager) dropResponsesForOtherPeers(responses []gsmsg.GraphSyncResponse, p peer.ID) []gsmsg.GraphSyncResponse {
+	remainingResponses := make([]gsmsg.GraphSyncResponse, 0, len(responses))
+	for _, response := range responses {
+		requestStatus, ok := rm.inProgressRequestStatuses[response.RequestID()]
+		if ok && requestStatus.p != p {
+			continue
+		}
+		remainingResponses = append(remainingResponses, response)
+	}
+	return remainingResponses
 }
 
 func (rm *RequestManager) processExtensions(responses []gsmsg.GraphSyncResponse, p peer.ID) []gsmsg.GraphSyncResponse {
